@@ -791,7 +791,7 @@ func gen(r *lib.RNG) (*caseT, map[string]bool) {
 		body = append(body, &Stmt{K: "declare", ID: g.nextVar, Z: &z})
 		sc.vars = append(sc.vars, g.nextVar)
 	}
-	shapeA, shapeB := r.Intn(100) < 16, r.Intn(100) < 16
+	shapeA, shapeB := r.Intn(100) < 16, r.Intn(100) < 22
 	body = append(body, g.stmts(sc, 3, r.Range(1, 3))...)
 	if shapeA {
 		g.forceBlockFirst = true
@@ -1009,7 +1009,7 @@ func run(c *lib.Ctx, cs *caseT) {
 	}
 	select {
 	case res = <-done:
-	case <-time.After(6 * time.Second):
+	case <-time.After(12 * time.Second):
 		timedOut = true
 		cancel()
 		select {
@@ -1121,7 +1121,7 @@ func run(c *lib.Ctx, cs *caseT) {
 	c.PredChecked()
 	switch {
 	case timedOut:
-		c.PredFail(id, "call-does-not-return/"+fsig, fmt.Sprintf("CALL does not return within 6 s; direct interpretation: %s; %s", cs.Ref, create), cs)
+		c.PredFail(id, "call-does-not-return/"+fsig, fmt.Sprintf("CALL does not return within 12 s; direct interpretation: %s; %s", cs.Ref, create), cs)
 	case status == "error" && obs == "RErr":
 		c.Count("agree-error")
 	case status == "error":
@@ -1293,7 +1293,7 @@ func main() {
 			var cs *caseT
 			for try := 0; try < 8; try++ {
 				cs, _ = gen(r)
-				if _, _, in := reference(cs); in.steps <= 220 {
+				if _, _, in := reference(cs); in.steps <= 150 {
 					break
 				}
 			}
